@@ -300,7 +300,7 @@ theorem no_getter_main (reg : Registry) (path : Path) (size align : Nat) (vis : 
     rcases hx with hx | hx <;> (subst hx; rw [head_mk]; decide)
 
 theorem extern_accessor_main (x : XValue) (t : DTy) (h : x.ty = some t) :
-    Emit.xvalItem x = Sexp.mk "xaccessor" [Emit.visS x.vis, .str ("get_" ++ x.name), .str (Emit.tyStr t), .int x.addr] := by
+    Emit.xvalItem x = Sexp.mk "xaccessor" [Emit.visS x.vis, .str ("get_" ++ unraw x.name), .str (Emit.tyStr t), .int x.addr] := by
   unfold Emit.xvalItem
   rw [h]
   rfl
